@@ -293,9 +293,9 @@ class AndersonCD(BaseSolver):
         # group datafits expose one Lipschitz constant per group, not per feature
         if hasattr(datafit, "grp_ptr"):
             raise ValueError(
-                f"`{datafit.__class__.__name__}` is a group datafit: its `get_lipschitz` "
-                "returns one constant per group. It is not compatible with solver "
-                "AndersonCD, use `GroupBCD` instead."
+                f"`{datafit.__class__.__name__}` is a group datafit: its "
+                "`get_lipschitz` returns one constant per group. It is not compatible "
+                "with solver AndersonCD, use `GroupBCD` instead."
             )
 
         # check datafit support sparse data
